@@ -805,6 +805,7 @@ func (t *TupleType) TypeDeclaration(*jen.File) {
 // error.
 func (t *TupleType) Marshal(tupleID string, writer string) *Statement {
 	statements := make([]jen.Code, 0)
+	statements = append(statements, jen.Var().Err().Error())
 	for _, typ := range t.Members {
 		s1 := jen.Err().Op("=").Add(typ.Type.Marshal(tupleID+"."+strings.Title(typ.Name), writer))
 		s2 := jen.Id(`if (err != nil) {
